@@ -15,7 +15,7 @@ use serde_json::json;
 
 pub const ID: &str = "C14";
 
-pub const RULE: &str = "cases = (text parser, string, input kind). Parsers: int(r), digits(r) for r in {2,8,10,16,36}; ascii::ident, unicode ident; ascii/unicode keyword(k) for k in {a, Z7, _, fa, éa}; whitespace(), inline_whitespace(), newline(); just('a').padded(), int(10).padded(); regex(p) at token offset k for generated patterns p. Strings: EVERY string up to a length bound over the 12-symbol alphabet {0 1 7 a Z f _ ' ' \\r \\n é .} and over the line-terminator alphabet {\\t \\x0B \\x0C \\u{85} \\u{2028} \\u{2029} \\r \\n ' ' a 0 z}; EVERY Unicode scalar value c in the contexts c, ac, ac_, 1c, 0c, ' 'c, \\rc, cac (classification is per character, so this enumerates the whole classification table of each parser); random Unicode strings drawn from ASCII / Latin-1 / BMP / astral ranges with XID_Start, XID_Continue, digits of other scripts, all White_Space and all eight terminators over-represented. Input kinds: &str always, &[u8] for ASCII strings. Each parser p is run as p.map_with(|o, e| (o, e.slice())).then(any().repeated().to_slice()). Oracle: independent recognisers longest_prefix(p, s) written with char::is_digit / is_ascii_* / char::is_whitespace / unicode_ident::is_xid_* and the table of the eight terminators: accept iff the recogniser matches a prefix, matched extent == that prefix, remainder == the rest, both as the SAME MEMORY as the caller's buffer (pointer offset and length), and for int / ident / keyword / regex the returned slice is that extent too. keyword(k) accepts iff the identifier starting there is exactly k. &[u8] results must equal the &str results on ASCII strings. regex(p) at offset k must equal an anchored regex-automata search at that position of the input (a fresh Regex; patterns incl. the zero-width assertions ^ $ \\b \\B (?m:^) (?m:$) \\A \\z, for which the text before the position matters), cross-checked by a small backtracking matcher written for the generated pattern language. NON-TRIVIAL = the string contains a boundary character for the parser under test (a leading 0 or a non-digit after digits for int/digits; an identifier-continue character right after the keyword, or a non-ASCII letter/digit for ident/keyword; CR before LF, or a terminator next to a non-terminator for newline; whitespace adjacent to a non-whitespace character for whitespace/padded; a regex whose match is empty or stops before the end of the input); cases are distinct by construction in the enumerated tiers (counted, not hashed) and hashed in the random tier.";
+pub const RULE: &str = "cases = (text parser, string, input kind). Parsers: int(r), digits(r) for r in {2,8,10,16,36}; ascii::ident, unicode ident; ascii/unicode keyword(k) for k in {a, Z7, _, fa, éa}; whitespace(), inline_whitespace(), newline(); just('a').padded(), int(10).padded(); regex(p) at token offset k for generated patterns p. Strings: EVERY string up to a length bound over the 12-symbol alphabet {0 1 7 a Z f _ ' ' \\r \\n é .} and over the line-terminator alphabet {\\t \\x0B \\x0C \\u{85} \\u{2028} \\u{2029} \\r \\n ' ' a 0 z}; EVERY Unicode scalar value c in the contexts c, ac, ac_, 1c, 0c, ' 'c, \\rc, cac (classification is per character, so this enumerates the whole classification table of each parser); random Unicode strings drawn from ASCII / Latin-1 / BMP / astral ranges with XID_Start, XID_Continue, digits of other scripts, all White_Space and all eight terminators over-represented. Input kinds: &str always, &[u8] for ASCII strings. Each parser p is run as p.map_with(|o, e| (o, e.slice())).then(any().repeated().to_slice()). Oracle: independent recognisers longest_prefix(p, s) written with char::is_digit / is_ascii_* / char::is_whitespace / unicode_ident::is_xid_* and the table of the eight terminators: accept iff the recogniser matches a prefix, matched extent == that prefix, remainder == the rest, both as the SAME MEMORY as the caller's buffer (pointer offset and length), and for int / ident / keyword / regex the returned slice is that extent too. keyword(k) accepts iff the identifier starting there is exactly k. &[u8] results must equal the &str results on ASCII strings. regex(p) at offset k must equal an anchored regex-automata search at that position of the input (a fresh Regex; patterns incl. the zero-width assertions ^ $ \\b \\B (?m:^) (?m:$) \\A \\z, for which the text before the position matters), cross-checked by a small backtracking matcher written for the generated pattern language. digits(r).configure(at_most 2) and whitespace().at_least(1) through a clone of a clone are fixed parsers too. NON-TRIVIAL = the string contains a boundary character for the parser under test (a leading 0 or a non-digit after digits for int/digits; an identifier-continue character right after the keyword, or a non-ASCII letter/digit for ident/keyword; CR before LF, or a terminator next to a non-terminator for newline; whitespace adjacent to a non-whitespace character for whitespace/padded; a regex whose match is empty or stops before the end of the input); cases are distinct by construction in the enumerated tiers (counted, not hashed) and hashed in the random tier.";
 
 pub const ASSUMPTIONS: &[&str] = &[
     "the recognisers in this file (std char predicates; unicode_ident for XID_Start / XID_Continue, which is also the table chumsky uses, so the Unicode VERSION of the identifier tables is not independently checked)",
